@@ -143,6 +143,9 @@ def make_resolver(sm):
         outcome = world.get(pathkey, "v")
         if outcome == "err":
             raise ResolverError("boom@" + pathkey)
+        if outcome == "errS":
+            # ONE exception instance shared by all fields of the request that fail this way
+            raise ctx.setdefault("shared_error", ResolverError("shared boom"))
         if outcome == "null":
             return None
         fdef = types[info.parent_type.name]["fields"][info.field_definition.name]
@@ -153,7 +156,62 @@ def make_resolver(sm):
     return resolver
 
 
-def data_tree(sm, typename, depth, pathkey=""):
+CONTAINER_KINDS = ["dict", "mappingproxy", "chainmap", "custom-mapping", "attributes", "methods"]
+
+# python_name differs from the GraphQL name for these fields of the resolver-less schemas
+PYTHON_NAMES = {("A", "Obj", "s"): "py_s", ("A", "Query", "i"): "py_i"}
+
+
+def python_name(sm, typename, fname):
+    return PYTHON_NAMES.get((sm["name"], typename, fname), fname)
+
+
+class _CustomMapping(object):
+    pass
+
+
+def _custom_mapping_class():
+    import collections.abc
+
+    class CustomMapping(collections.abc.Mapping):
+        def __init__(self, data):
+            self._data = dict(data)
+
+        def __getitem__(self, key):
+            return self._data[key]
+
+        def __iter__(self):
+            return iter(self._data)
+
+        def __len__(self):
+            return len(self._data)
+
+    return CustomMapping
+
+
+def _wrap_container(kind, typename, fields):
+    import collections
+    import types
+
+    if kind == "dict":
+        return dict(fields, __typename__=typename)
+    if kind == "mappingproxy":
+        return types.MappingProxyType(dict(fields))
+    if kind == "chainmap":
+        items = list(fields.items())
+        return collections.ChainMap(dict(items[::2]), dict(items[1::2]))
+    if kind == "custom-mapping":
+        return _custom_mapping_class()(fields)
+    o = type(str(typename), (object,), {})()
+    for k, v in fields.items():
+        if kind == "methods":
+            setattr(o, k, (lambda value: (lambda ctx, info, **args: value))(v))
+        else:
+            setattr(o, k, v)
+    return o
+
+
+def data_tree(sm, typename, depth, pathkey="", kind=None):
     """A nested value for *default_resolver*: dicts and attribute objects alternate; every field of
     `typename` present with its default value down to `depth` levels (used with no custom resolver;
     values depend on the FIELD path, not on aliases)."""
@@ -168,16 +226,19 @@ def data_tree(sm, typename, depth, pathkey=""):
             if d <= 0:
                 return None
             concrete = S.possible_types(sm, name)[0]
-            return data_tree(sm, concrete, d - 1, pk)
+            return data_tree(sm, concrete, d - 1, pk, kind)
         return py_value(sm, name, pk)
 
     fields = {}
     for fn, f in S.fields_of(sm, typename).items():
         pk = (pathkey + "/" + fn) if pathkey else fn
+        key = python_name(sm, typename, fn)
         if f.get("echo") or f["args"]:
-            fields[fn] = None
+            fields[key] = None
             continue
-        fields[fn] = val(S.parse_type(f["type"]), pk, depth)
+        fields[key] = val(S.parse_type(f["type"]), pk, depth)
+    if kind is not None:
+        return _wrap_container(kind, typename, fields)
     if depth % 2:
         fields["__typename__"] = typename
         return fields
